@@ -128,7 +128,20 @@ fn text(u: &mut U, big: usize) -> String {
     }
 }
 fn blob(u: &mut U, big: usize) -> Vec<u8> {
-    match u.below(15) {
+    match u.below(16) {
+        15 => {
+            // carrier: 2..=4 complete stored records back to back, optionally framed by a few bytes
+            let seed = u.u64();
+            let framed = u.chance(80);
+            let mut b = if framed { u.bytes(2) } else { vec![] };
+            for k in 0..2 + u.below(3) {
+                b.extend(g::inner_record(seed.wrapping_add(k as u64)));
+            }
+            if framed {
+                b.extend(u.bytes(2));
+            }
+            b
+        }
         0..=9 => u.bytes(11),
         10..=13 => expand_bytes(u.u64(), u.below(64), u.below(6) as u8),
         _ => expand_bytes(u.u64(), u.below(big + 1), u.below(6) as u8),
@@ -477,7 +490,47 @@ fn stream(u: &mut U, storage: bool) -> Vec<u8> {
         }
         b
     };
-    match u.below(12) {
+    match u.below(13) {
+        12 => {
+            // burst: one message again and again, a single header field changed from copy to copy
+            let mut cur = message(u, st, false, true);
+            if u.chance(230) && cur.htyp & WEID == 0 {
+                cur.htyp |= WEID;
+                cur.ecu = Some("ECU".to_string());
+                cur.len += 4;
+            }
+            let mut b = refcodec::encode(&cur);
+            for _ in 0..2 + u.below(8) {
+                let r = u.u8() as usize;
+                match u.below(8) {
+                    0..=3 => {
+                        if let Some(e) = &mut cur.ecu {
+                            *e = ["ECU", "A", "ZZZ", "ECU", "APP"][r % 5].to_string();
+                        }
+                    }
+                    4 => {
+                        if let Some(x) = &mut cur.ext {
+                            x.apid = ["APP", "A", "", "CTX"][r % 4].to_string();
+                        }
+                    }
+                    5 => {
+                        if let Some(x) = &mut cur.ext {
+                            x.ctid = ["CTX", "CON", "APP", ""][r % 4].to_string();
+                        }
+                    }
+                    6 => cur.mcnt = r as u8,
+                    _ => {
+                        if let Some(x) = &mut cur.ext {
+                            if (x.msin >> 1) & 7 == 0 {
+                                x.msin = (x.msin & 0x0f) | (((r % 8) as u8) << 4);
+                            }
+                        }
+                    }
+                }
+                b.extend(refcodec::encode(&cur));
+            }
+            b
+        }
         0..=5 => msgs(u, 7),
         6..=8 => {
             let mut b = msgs(u, 5);
